@@ -167,6 +167,17 @@ def evaluate(r, fam, tag, make, N, P, planet, controls, expect, reject_tag=None,
             r.eq(T, np.full(N, lo), 'constant', '%s/not-constant/%s' % (fam, tag), **detail)
         else:
             r.nontrivial = True
+        pn = detail.get('pnodes')
+        if fam == 'npoint' and pn is not None and len(pn) == len(controls) and expect == 'valid':
+            pn_ = np.asarray(pn, dtype=float)
+            cd_ = np.diff(np.asarray(controls, dtype=float))
+            if np.all(np.isfinite(pn_)) and np.all(pn_ > 0) and np.all(np.diff(pn_) < 0) and \
+                    (np.all(cd_ <= 0) or np.all(cd_ >= 0)) and controls[0] != controls[-1]:
+                # control temperatures that fall (or rise) all the way from the surface node to the top node: the layers,
+                # listed from the surface up like the pressures, start at the surface end - the profile is not upside down
+                sgn = 1.0 if controls[0] > controls[-1] else -1.0
+                # (only the two ends are compared: the smoothing borders of the unchanged code are not monotone)
+                r.check(bool(sgn * (T[0] - T[-1]) >= -s), 'oriented', '%s/upside-down/%s' % (fam, tag), got=T, **detail)
     return T
 
 
